@@ -373,6 +373,12 @@ class Gen:
                 ty = RecordRef(self.r.choice(cands))
             else:
                 ty = self.scalar()
+                # a typedef of an over-aligned record inside a packed context is the same recorded limitation as the record itself
+                t0 = resolve(ty)
+                while isinstance(t0, Array):
+                    t0 = resolve(t0.elem)
+                if packed_ctx and isinstance(t0, RecordRef) and rec_has_align(t0.rec):
+                    ty = self.int_type()
             if self.p("p_array") and not (isinstance(ty, Scalar) and ty.kind == "fnptr" and False):
                 dims = [self.r.randint(1, 4) for _ in range(self.r.choice([1, 1, 1, 2, 2, 3]))]
                 if self.r.random() < 0.1:
